@@ -502,6 +502,40 @@ def run(ctx):
     ctx.ob("R5.empty-value-refused", SDF, "Metadata.__setitem__", "len(value) == 0 -> raise",
            any(isinstance(st, ast.If) and has_code(st.test, "len(value) == 0") and any(isinstance(b, ast.Raise) for b in st.body)
                for st in stmts(si)), "a key without value cannot be read back", si.lineno, nontrivial=False)
+    # the metadata reader, by ways through its line loop: a key line first stores the pair that is complete (under the OLD key), then takes
+    # the new key and forgets the old value; a value line starts the value or continues it with the line break the writer put there;
+    # after the loop the last pair is stored
+    from .. import machine
+    md = sd.func("Metadata.deserialize")
+    mlps = [st for st in md.body if isinstance(st, ast.For)]
+    ctx.need(len(mlps) == 1 and isinstance(mlps[0].target, ast.Name), "the line loop of Metadata.deserialize")
+    mlp = mlps[0]
+    mline = mlp.target.id
+    mways = machine.ways(mlp.body, machine.assigned_names(mlp), ("_add_key_value_pair",))
+    key_ways = [w for w in mways if any(".Key.deserialize(" in u for u in w.updates)]
+    bad_md = []
+    ctx.need(len(key_ways) >= 1, "the key-line way of Metadata.deserialize")
+    for w in key_ways:
+        ups = [u for u in w.updates if not u.startswith(f"{mline} = ")]
+        store = [k_ for k_, u in enumerate(ups) if u.startswith("_add_key_value_pair(")]
+        newkey = [k_ for k_, u in enumerate(ups) if ".Key.deserialize(" in u]
+        reset = [k_ for k_, u in enumerate(ups) if u.endswith("= None")]
+        if not store or store[0] > newkey[0]:
+            bad_md.append("the complete pair is not stored before the key is replaced")
+        if not reset:
+            bad_md.append("the value of the previous key is not forgotten at a new key")
+    conts = [u for w in mways for u in w.updates if "+=" in u or ("+" in u and u.split(" = ")[0] in u.split(" = ", 1)[-1])]
+    ctx.need(len(conts) >= 1, "the continuation of a multi-line value in Metadata.deserialize")
+    for u in conts:
+        tree_ = ast.parse(u).body[0]
+        consts_ = [x.value for x in ast.walk(tree_) if isinstance(x, ast.Constant)]
+        if consts_ != ["\n"]:
+            bad_md.append(f"lines of a value are joined with {consts_!r}, the writer separates them with a line break")
+    after = [st for st in md.body[md.body.index(mlp) + 1:] if isinstance(st, ast.Expr) and isinstance(st.value, ast.Call) and call_name(st.value) == "_add_key_value_pair"]
+    if not after:
+        bad_md.append("the last pair is not stored after the loop")
+    ctx.ob("R5.metadata-reader", SDF, "Metadata.deserialize", f"{len(mways)} ways through the line loop", not bad_md,
+           "; ".join(bad_md) + ": keys or (multi-line) values of the metadata do not come back as they were written", mlp.lineno)
     # the two numeric key components are normalised to int independently: whether `registry_internal` is converted depends on
     # `registry_internal` alone (a key without DT number still has a registry number that must equal the parsed one)
     from .. import machine
@@ -637,7 +671,11 @@ def run(ctx):
         ctx.ob("R1.header-columns", HEAD, "Header.serialize", f"{nm} at [{a}:{b}] read at {rcols.get(names.get(nm, nm))}",
                rcols.get(names.get(nm, nm)) == (a, b), f"header field {nm} is written at {a}..{b} but read elsewhere",
                js[0].lineno)
-    trunc = all(("." in "".join(x.value for x in p.format_spec.values)) for p in js[0].values if isinstance(p, ast.FormattedValue))
+    fields_ = [p for p in js[0].values if isinstance(p, ast.FormattedValue)]
+    # (a width that is itself computed - f"{value:>{width}.{width}}" - or a field without a format is not a layout this rule reads)
+    ctx.need(all(p.format_spec is not None and all(isinstance(x, ast.Constant) for x in p.format_spec.values) for p in fields_),
+             "literal format specifications in the header line of Header.serialize")
+    trunc = all(("." in "".join(x.value for x in p.format_spec.values)) for p in fields_)
     ctx.ob("R2.header-truncated", HEAD, "Header.serialize", "every field has a precision (truncation) in its format", trunc,
            "a header field without a maximum width shifts the following fields", js[0].lineno)
     # lazy container
@@ -655,6 +693,9 @@ def run(ctx):
 
 
 MUTANTS = [
+    Mutant("metadata-value-not-reset", SDF, "                current_key = Metadata.Key.deserialize(line)\n                current_value = None\n", "                current_key = Metadata.Key.deserialize(line)\n", "R5.metadata-reader"),
+    Mutant("metadata-lines-joined-by-space", SDF, '                    current_value += "\\n" + line\n', '                    current_value += " " + line\n', "R5.metadata-reader"),
+    Mutant("metadata-last-pair-dropped", SDF, "        # Add final pair\n        _add_key_value_pair(metadata, current_key, current_value)\n", "", "R5.metadata-reader"),
     Mutant("mol-set-structure-truncates-first", MOL, "        self.lines = self.lines[:N_HEADER] + write_structure_to_ctab(\n            atoms, default_bond_type, version\n        )\n",
            "        del self.lines[N_HEADER:]\n        self.lines += write_structure_to_ctab(atoms, default_bond_type, version)\n", "R2.refusal-leaves-file-intact"),
     Mutant("coordination-as-double", RDK, "        if not use_dative_bonds and bond_type == BondType.COORDINATION:\n            bond_type = BondType.SINGLE\n",
